@@ -570,7 +570,7 @@ func (fc *FnCtx) permute(s Val, st *types.Slice) {
 	q := fmt.Sprintf("q!p!%d", fc.vc.nfresh)
 	inr := func(x string) string { return "(and (<= " + lo + " " + x + ") (< " + x + " " + hi + "))" }
 	fc.vc.assume(fc.cur.reach, "(forall (("+q+" Int)) (! (=> "+inr(q)+" (and "+inr("("+pf+" "+q+")")+" (= ("+pinv+" ("+pf+" "+q+")) "+q+") (= (select "+newArr+" "+q+") (select "+sel(old, arr)+" ("+pf+" "+q+"))))) :pattern ((select "+newArr+" "+q+")) :pattern (("+pf+" "+q+"))))")
-	fc.vc.assume(fc.cur.reach, "(forall (("+q+" Int)) (! (=> "+inr(q)+" (and "+inr("("+pinv+" "+q+")")+" (= ("+pf+" ("+pinv+" "+q+")) "+q+"))) :pattern (("+pinv+" "+q+"))))")
+	fc.vc.assume(fc.cur.reach, "(forall (("+q+" Int)) (! (=> "+inr(q)+" (and "+inr("("+pinv+" "+q+")")+" (= ("+pf+" ("+pinv+" "+q+")) "+q+") (= (select "+newArr+" ("+pinv+" "+q+")) (select "+sel(old, arr)+" "+q+")))) :pattern (("+pinv+" "+q+")) :pattern ((select "+sel(old, arr)+" "+q+"))))")
 	fc.vc.assume(fc.cur.reach, "(forall (("+q+" Int)) (! (=> (not "+inr(q)+") (= (select "+newArr+" "+q+") (select "+sel(old, arr)+" "+q+"))) :pattern ((select "+newArr+" "+q+"))))")
 	fc.setComp(comp, srt, sto(old, arr, newArr))
 	fc.lastSort = &sortInfo{perm: pf, newArr: newArr, slice: s}
@@ -798,6 +798,7 @@ func (fc *FnCtx) chanFact(ch Val, qvars []string) {
 	if !ok || ch.T == "0" {
 		return
 	}
+	ch.T = fc.vc.expandAbbr(ch.T)
 	for _, q := range qvars {
 		if strings.Contains(ch.T, q) {
 			return
